@@ -14,7 +14,7 @@ import (
 // C13 — parsing is a pure, re-entrant function of its input.
 
 type c13Op struct {
-	Kind string `json:"kind"` // parse | eval
+	Kind string `json:"kind"` // parse | eval | print
 	Text int    `json:"text"` // index into the corpus
 }
 
@@ -159,6 +159,8 @@ func c13Gen(r *simrt.RNG, tier string) interface{} {
 			k := "parse"
 			if r.Bool(0.5) {
 				k = "eval"
+			} else if r.Bool(0.3) {
+				k = "print" // parse + pretty print (the printer's templates are process-wide)
 			}
 			ops = append(ops, c13Op{k, r.Intn(len(p.Corpus))})
 		}
@@ -230,6 +232,20 @@ func c13Do(op c13Op, p *c13Plan, erp *interpreter.ECALRuntimeProvider) (result s
 		}
 	}()
 	text := p.Corpus[op.Text]
+	if op.Kind == "print" {
+		ast, err := parser.Parse(p.nameOf(op.Text), text)
+		if err != nil {
+			return "error: " + err.Error()
+		}
+		if len(text) > 500 {
+			return "tree: " + c13Digest(ast) // (printing a very deep tree is slow under instrumentation)
+		}
+		out, err := parser.PrettyPrint(ast)
+		if err != nil {
+			return "print-error: " + err.Error()
+		}
+		return "printed: " + out
+	}
 	if op.Kind == "parse" {
 		ast, err := parser.Parse(p.nameOf(op.Text), text)
 		if (ast == nil) == (err == nil) {
